@@ -50,3 +50,15 @@ Print Assumptions C05_receiver_window_exact.
 Theorem C05_window_constant : init_window = 65536 /\ init_window < M32.
 Proof. exact (conj init_window_is_64KiB window_fits_uint32). Qed.
 Print Assumptions C05_window_constant.
+
+(* system level, all interleavings of sends, reads, frame delivery and credit delivery *)
+From GT Require Import Pipe PipeProofs.
+Theorem C05_system_blocked_only_by_full_unread_window : forall (A : Type) cmax W ls (s : pst A),
+  prun cmax (p_init A W) ls = Some s -> p_cur s <> None -> Pipe.internal_enabled cmax s = false -> bytes (p_rq s) = W :> nat.
+Proof. exact system_blocked_means_full_window_unread. Qed.
+Print Assumptions C05_system_blocked_only_by_full_unread_window.
+
+Theorem C05_system_window_restored : forall (A : Type) cmax W ls (s : pst A),
+  prun cmax (p_init A W) ls = Some s -> p_wire s = [] -> p_rq s = [] -> p_credits s = [] -> p_swin s = W.
+Proof. exact system_window_restored. Qed.
+Print Assumptions C05_system_window_restored.
